@@ -16,7 +16,7 @@ import (
 // with the same payload.
 
 func init() {
-	register(&Prop{ID: "C15", Run: runC15, Quick: 15000, Thorough: 150000, Level: "exploration"})
+	register(&Prop{ID: "C15", Run: runC15, Quick: 15000, Thorough: 1500000, Level: "exploration"})
 }
 
 var c15Policies = []string{"in-order", "reversed", "shuffled", "duplicated", "one-withheld", "foreign-first", "delayed", "all-withheld", "lookalike-only"}
